@@ -128,6 +128,49 @@ theorem threshold_decoder_recovers (th : Nat) (hlo : 887 ≤ th) (hhi : th < 171
     Spec.decodeBytes th bs.length measured = bs :=
   decodeBytes_tolerant th hlo hhi bs measured hlen htol
 
+/-- **Sampling never invents a violation.** If a pulse is within tolerance and all an observer knows
+is that its length lies strictly between `lo` and `hi`, the widened test accepts it: the
+system-level layer of the check (EAR sampled once per emulated instruction) cannot alarm on a
+machine whose pulses are within tolerance. -/
+theorem wide_tolerance_sound (L x lo hi : Nat) (h : Spec.pulseOk L x = true) (h1 : lo < x) (h2 : x < hi) :
+    Spec.pulseOkWide L lo hi = true := by
+  simp only [Spec.pulseOk, Bool.and_eq_true, decide_eq_true_eq] at h
+  simp only [Spec.pulseOkWide, decide_eq_true_eq]
+  omega
+
+/-- … and it rejects exactly when no length compatible with the samples is within tolerance. -/
+theorem wide_tolerance_complete (L lo hi : Nat) (h : Spec.pulseOkWide L lo hi = false) (x : Nat)
+    (h1 : lo < x) (h2 : x < hi) : Spec.pulseOk L x = false := by
+  simp only [Spec.pulseOkWide, decide_eq_false_iff_not] at h
+  simp only [Spec.pulseOk, Bool.and_eq_false_iff, decide_eq_false_iff_not]
+  omega
+
+/-- Pulses within tolerance add up to a total within `Σ nominal … Σ nominal + 32·k` … -/
+theorem cumulative_tolerance : ∀ (ns xs : List Nat), xs.length = ns.length →
+    Spec.withinTolerance ns xs = true → ns.sum ≤ xs.sum ∧ xs.sum ≤ ns.sum + 32 * ns.length := by
+  intro ns
+  induction ns with
+  | nil => intro xs hl _; cases xs <;> simp_all
+  | cons n ns ih =>
+    intro xs hl ht
+    cases xs with
+    | nil => simp at hl
+    | cons x xs =>
+      simp only [Spec.withinTolerance, Bool.and_eq_true, Spec.pulseOk, decide_eq_true_eq] at ht
+      obtain ⟨⟨h1, h2⟩, hrest⟩ := ht
+      obtain ⟨h3, h4⟩ := ih xs (by simpa using hl) hrest
+      simp only [List.sum_cons, List.length_cons]
+      omega
+
+/-- … so the cumulative test of the sampled observation is sound as well: it cannot reject a machine
+whose pulses are all within tolerance, however far apart the samples are. -/
+theorem cumulative_wide_sound (ns xs : List Nat) (hl : xs.length = ns.length)
+    (ht : Spec.withinTolerance ns xs = true) (lo hi : Nat) (h1 : lo < xs.sum) (h2 : xs.sum < hi) :
+    Spec.sumOkWide ns.sum ns.length lo hi = true := by
+  obtain ⟨h3, h4⟩ := cumulative_tolerance ns xs hl ht
+  simp only [Spec.sumOkWide, decide_eq_true_eq]
+  omega
+
 /-! Non-vacuity -/
 
 example : WellFormed [[0xFF, 0x01, 0xFE], [0x00, 0x00]] := by
